@@ -103,7 +103,7 @@ def ensure_equal_dims(to_check, names, func_name, dim=None):
     all_dims = [tuple(np.array(x.shape)[dim]) for x in to_check]
     check = [True] + [all_dims[0] == all_dims[ii + 1] for ii in range(len(all_dims[1:]))]
 
-    if np.alltrue(check) == False:  # noqa: E712
+    if np.all(check) == False:  # noqa: E712
         msg = 'Checking {0} inputs - Input dim mismatch'.format(func_name)
         logger.error(msg)
         msg = "Mismatch between inputs: "
